@@ -591,7 +591,7 @@ Proof.
         destruct (find_op pl pid') as [xn|] eqn:Df; [| discriminate].
         destruct (replace_op pl pid (op_results xn)) as [pl'|] eqn:Dp; [| discriminate].
         destruct (replace_op_find _ _ _ _ Dp) as (x & Dx & Hid).
-        assert (Hx0 : o_rtys x = []) by (eapply HRI; [reflexivity | exact Dx]).
+        assert (Hx0 : o_rtys x = []) by (eapply HRI; [exact Ert | exact Dx]).
         assert (Hnil : op_results xn = []).
         { unfold replace_op in Dp. rewrite Dx, Hx0 in Dp.
           destruct (op_results xn); [reflexivity |]. simpl in Dp. unfold zlen in Dp. simpl in Dp.
@@ -629,5 +629,72 @@ Proof.
       rewrite <- !app_assoc. rewrite S1. simpl app. cbn [run_rewriter]. rewrite Herase. unfold rr_op. rewrite Hr1, Df.
       rewrite (find_op_id _ _ _ Df), De.
       eapply IH; [exact I1 | exact E2 | exact Hpre | apply RI_gone; eapply find_after_erase; exact De | exact Hd].
+Qed.
+
+(* ------------------------------------------------------------------ one statement of the direct rewrite *)
+Definition step_rw (s : stmt) (rest : list stmt) (e : env) (pl : payload) : option (env * payload) :=
+  match s with
+  | SAttr l c => Some ((KLocal l, OAttr c) :: e, pl)
+  | SType l c => Some ((KLocal l, OType c) :: e, pl)
+  | SOp l name operands attrs tys =>
+      match all_some (map (fun v => get_val e (vref_key v)) operands),
+            all_some (map (fun na : Z * aref => match get_attr e (aref_key (snd na)) with
+                                     | Some a => Some (fst na, a) | None => None end) attrs),
+            (match tys with
+             | [] => if fx_infer fx && existsb (is_replace_with l) rest
+                     then match find_op pl pid with Some x => Some (o_rtys x) | None => None end
+                     else Some []
+             | _ => all_some (map (fun t => get_type e (tref_key t)) tys)
+             end) with
+      | Some vs, Some ats, Some ts =>
+          match create_op pl pid name vs ats ts with
+          | Some (pl', id) => Some ((KLocal l, OOp id) :: e, pl')
+          | None => None
+          end
+      | _, _, _ => None
+      end
+  | SResult l lop idx =>
+      match get_opid e (KLocal lop) with
+      | Some p => match find_op pl p with
+                  | Some x => if (0 <=? idx) && (idx <? zlen (o_rtys x))
+                              then Some ((KLocal l, OVal (VRes p idx)) :: e, pl) else None
+                  | None => None
+                  end
+      | None => None
+      end
+  | SReplaceVals vs =>
+      match vs with
+      | [] => None
+      | _ => match all_some (map (fun v => get_val e (vref_key v)) vs) with
+             | Some news => match replace_op pl pid news with Some pl' => Some (e, pl') | None => None end
+             | None => None
+             end
+      end
+  | SReplaceOp l =>
+      match get_opid e (KLocal l) with
+      | Some p => match find_op pl p with
+                  | Some x => match replace_op pl pid (op_results x) with Some pl' => Some (e, pl') | None => None end
+                  | None => None
+                  end
+      | None => None
+      end
+  | SErase => match find_op pl pid with
+              | Some _ => match erase_op pl pid with Some pl' => Some (e, pl') | None => None end
+              | None => None
+              end
+  end.
+
+Lemma run_rw_step : forall s rest e pl,
+  run_rw fx pid (s :: rest) e pl =
+  match step_rw s rest e pl with Some (e', pl') => run_rw fx pid rest e' pl' | None => RErr end.
+Proof.
+  intros s rest e pl. destruct s; cbn [run_rw step_rw]; try reflexivity;
+    repeat match goal with
+           | |- context [match ?x with _ => _ end] =>
+               match x with
+               | run_rw _ _ _ _ _ => fail 1
+               | _ => destruct x
+               end
+           end; reflexivity.
 Qed.
 End Sim.
